@@ -55,6 +55,16 @@ NUMERIC = {
              var='lower_bound', params=[('avg_needed_step_length', 'S'), ('tolerance', 'S')],
              subst={'graph_distances_ref[node]': ('gd_ref_node', 'S')}, ret='S'),
     ],
+    'Gen_topology': [
+        dict(name='sig_of', file='polyply/src/topology.py', func='Topology.convert_nonbond_to_sig_eps', kind='assign_rhs',
+             var='sig', pick=0, params=[('nb1', 'S'), ('nb2', 'S')], opaque={'(nb2/nb1)**(1.0/6.0)': 'sixth_root'}, ret='S'),
+        dict(name='eps_of', file='polyply/src/topology.py', func='Topology.convert_nonbond_to_sig_eps', kind='assign_rhs',
+             var='eps', pick=0, params=[('nb1', 'S'), ('nb2', 'S')], ret='S'),
+        dict(name='lorentz_berthelot', file='polyply/src/topology.py', func='lorentz_berthelot_rule',
+             params=[('sig_A', 'S'), ('sig_B', 'S'), ('eps_A', 'S'), ('eps_B', 'S')], ret=('T', 'S', 'S')),
+        dict(name='geometric', file='polyply/src/topology.py', func='geometric_rule',
+             params=[('C6_A', 'S'), ('C6_B', 'S'), ('C12_A', 'S'), ('C12_B', 'S')], ret=('T', 'S', 'S')),
+    ],
     'Gen_backmap': [
         dict(name='place_atom', file='polyply/src/backmap.py', func='Backmap._place_init_coords',
              kind='assign_rhs', var='new_coords',
